@@ -17,6 +17,11 @@ def cases(tier, seed):
     for i in range(300 if tier == 'quick' else 3000):
         vs = ['S'] + rng2.sample(['#TERM#a', '#TERM#b', "#TERM#a'", 'A'], rng2.choice([1, 2]))
         yield {'kind': 'cfg', 'G': C.to_json(C.random_grammar(rng2, vs, ['a', 'b'], rng2.choice([2, 3, 4]), rng2.choice([3, 4, 5])))}
+    # a variable and a terminal with the same value: Variable('a') == Terminal('a') is True, Terminal('a') == Variable('a') is False and both
+    # hash alike; to_pda keeps them apart (PDAObjectCreator registers terminals first) - only the to_pda language is checked on these
+    for i in range(200 if tier == 'quick' else 2000):
+        vs = ['S'] + rng2.sample(['a', 'b', 'A'], rng2.choice([1, 2]))
+        yield {'kind': 'cfg-samevalue', 'G': C.to_json(C.random_grammar(rng2, vs, ['a', 'b'], rng2.choice([2, 3]), rng2.choice([3, 4, 5])))}
 
 
 def check(case):
@@ -25,4 +30,5 @@ def check(case):
         nontrivial = any(P.accepts(X, w, m) for m in ('final', 'empty') for w in K.words(sorted(P.alphabet(X), key=repr), 2)) and any(len(t[4]) >= 2 for t in X[3])
         return K.c13_pda(X, 3), nontrivial, 1
     g = C.from_json(case['G'])
+    if case['kind'] == 'cfg-samevalue': return K.c13_cfg(g, 3, roundtrip=False), G.nontrivial(g), 1
     return K.c13_cfg(g, 3), G.nontrivial(g), 1
